@@ -286,8 +286,19 @@ struct Acc {
 fn frame_matrix(e: &Env, tier: Tier, a: &mut Acc) {
     // bank 0 has emissions configured (update path), bank 1 has none (setup path)
     for bank_idx in [0usize, 1] {
-        for (frozen, preset) in [(false, 0u64), (true, 0), (false, TOKENLESS_REPAYMENTS_ALLOWED | PERMISSIONLESS_BAD_DEBT_SETTLEMENT_FLAG | CLOSE_ENABLED_FLAG), (true, TOKENLESS_REPAYMENTS_ALLOWED | CLOSE_ENABLED_FLAG)] {
+        // (.., true): the bank was switched to a fixed oracle price (real instruction) before it was frozen
+        for (frozen, preset, fixed_oracle) in [(false, 0u64, false), (true, 0, false), (false, TOKENLESS_REPAYMENTS_ALLOWED | PERMISSIONLESS_BAD_DEBT_SETTLEMENT_FLAG | CLOSE_ENABLED_FLAG, false), (true, TOKENLESS_REPAYMENTS_ALLOWED | CLOSE_ENABLED_FLAG, false), (false, 0, true), (true, 0, true)] {
+            if fixed_oracle && bank_idx != 1 {
+                continue;
+            }
             let mut s0 = e.s.clone();
+            if fixed_oracle {
+                let r = process_tx(&mut s0, &Tx::one(ix::set_fixed_oracle_price(e.w.group, e.w.roles.admin, e.w.banks[bank_idx].key, I80F48::from_num(3).into()), &[e.w.roles.admin]));
+                if !r.ok() {
+                    *a.classes.entry("fixed_oracle_setup_refused".into()).or_insert(0) += 1;
+                    continue;
+                }
+            }
             world::edit_bank(&mut s0, &e.w.banks[bank_idx].key, |b| b.flags |= preset);
             if frozen {
                 world::edit_bank(&mut s0, &e.w.banks[bank_idx].key, |b| b.flags |= FREEZE_SETTINGS);
